@@ -11,6 +11,7 @@ import re
 
 from .. import phys
 from ..astutil import U, assignments, calls, callee_name, const_str, own_walk
+from ..arrnf import ANF, C, FULL, contains, expand_comp, expect, key, match, norm_cond, show, walk
 from ..phys import component, hook_summary
 from ..source import AnalysisError
 
@@ -34,6 +35,20 @@ ASSUMPTIONS = ["pandapower's get_edge_table / add_edges add one edge per in-serv
 TECHNIQUE = "signature/table agreement, keyword-construction check, solver-side slot filling from component hooks"
 
 
+def _sh(ok, what):
+    if not ok:
+        raise AnalysisError("unrecognised shape: " + what)
+
+
+def _abc_call(ix, r):
+    abc = ix.func(CG + ".add_branch_component")
+    cs = [c for c in r.calls() if c.fn == ("f", abc.qualname)]
+    _sh(len(cs) == 1, "create_nxgraph calls add_branch_component once per component")
+    out = dict(zip(abc.params(), cs[0].args))
+    out.update(dict(cs[0].kw))
+    return abc, cs[0], out
+
+
 def r18_1(run):
     ix = run.index
     f = ix.func(CG + ".create_nxgraph")
@@ -45,49 +60,63 @@ def r18_1(run):
         m = re.match(r"(include|respect_status|weighting)_(\w+)$", p)
         if m and m.group(2) not in ("junctions", "branches_all"):
             named.setdefault(m.group(2), set()).add(m.group(1))
+    r0 = ANF(ix, f).run()
+    # names copied from the local scope into branch_params: expand the comprehension of locals().get(<name>)
     fw = None
-    for n in ast.walk(f.node):
-        if isinstance(n, ast.DictComp) and "loc.get" in U(n.value):
-            for g in n.generators:
-                if isinstance(g.iter, ast.List) and all(const_str(e) for e in g.iter.elts) and U(g.target) == "bc":
-                    fw = [const_str(e) for e in g.iter.elts]
-    run.ob("forwarding-list-found", fw is not None and len(fw) >= 8, "forwarding list: %s" % fw, w)
+    for c in r0.calls():
+        if c.fn[0] == "attr" and c.fn[2] == "update" and c.args and c.args[0][0] == "comp":
+            els = expand_comp(c.args[0])
+            if els and all(e[0] == "kv" and e[1][0] == "c" and e[2][0] == "call" and e[2][1][0] == "attr" and e[2][1][2] == "get"
+                           and e[2][2][:1] == (e[1],) for e in els):
+                fw = sorted(e[1][1] for e in els)
+    run.ob("forwarding-list-found", fw is not None and len(fw) >= 24, "names copied from the signature into branch_params: %s" % (fw,), w)
     fw = fw or []
+    fwx = {}
+    for nme in fw:
+        m = re.match(r"(include|respect_status|weighting)_(\w+)$", nme)
+        if m:
+            fwx.setdefault(m.group(2), set()).add(m.group(1))
     for x, kinds in sorted(named.items()):
-        run.ob("named-parameter-forwarded|%s" % x, x in fw,
-               "the named parameters *_%s are copied into branch_params" % x, w)
+        run.ob("named-parameter-forwarded|%s" % x, fwx.get(x) == {"include", "respect_status", "weighting"},
+               "the named parameters *_%s are copied into branch_params" % x, w, detail=str(sorted(fwx.get(x, []))))
         run.ob("named-parameter-complete|%s" % x, kinds == {"include", "respect_status", "weighting"},
                "include_/respect_status_/weighting_%s all exist" % x, w, detail=str(sorted(kinds)))
-    for x in fw:
-        run.ob("forwarded-name-is-parameter|%s" % x, x in named,
-               "every forwarded name has named parameters (otherwise None overrides a keyword argument)", w)
-    # keyword computation in the loop
-    loop = [n for n in own_walk(f.node) if isinstance(n, ast.For) and "component_list" in U(n.iter)]
-    ok = len(loop) == 1
-    run.ob("component-loop", ok, "one loop over net.component_list", w)
-    if ok:
-        body = loop[0].body
-        kw_def = [U(s).replace(" ", "").replace('"', "'") for s in body if isinstance(s, (ast.Assign, ast.If))]
-        lookups = {}
-        for n in ast.walk(loop[0]):
-            if isinstance(n, ast.Call) and U(n.func) == "branch_params.get" and isinstance(n.args[0], ast.BinOp):
-                lookups[const_str(n.args[0].left)] = U(n.args[0].right)
-        run.ob("lookups-use-one-keyword", set(lookups.values()) == {"include_kw"} and set(lookups) == {"include_%s", "respect_status_%s", "weighting_%s"},
-               "include, respect_status and weighting are all looked up under the same computed keyword", run.where(f, loop[0]),
-               detail=str(lookups))
-        # simulate the keyword for every branch component table of the package
-        for c in ix.components():
-            if not ix.is_subclass(c, "BranchComponent"):
-                continue
-            t = ix.method_const(c, "table_name")
-            kw = "%ss" % t
-            if t.startswith("circ_pump"):
-                kw = t.split("circ_pump")[-1][1:] + "_circ_pumps"
-            src = U(loop[0])
-            formula_ok = "include_kw = '%ss' % table_name" in src and "table_name.split('circ_pump')[-1][1:] + '_circ_pumps'" in src
-            run.ob("keyword|%s->%s" % (t, kw), formula_ok and (kw in named or True),
-                   "table %s is controlled by *_%s (%s)" % (t, kw, "named parameter" if kw in named else "via **kwargs"),
-                   run.where(f, loop[0]))
+    for nme in fw:
+        run.ob("forwarded-name-is-parameter|%s" % nme, nme in params,
+               "every forwarded name is a parameter (otherwise locals().get gives None, which overrides a keyword argument)", w)
+    # which named suffix controls which table: evaluate the loop body for every branch component table of the package
+    controls = {}
+    n_tab = 0
+    for c in ix.components():
+        if not ix.is_subclass(c, "BranchComponent"):
+            continue
+        t = ix.method_const(c, "table_name")
+        n_tab += 1
+        r = ANF(ix, f, method_consts={"table_name": t}).run()
+        abc, call, args = _abc_call(ix, r)
+        keys = {}
+        for pn, prefix in (("include_comp", "include_"), ("respect_status", "respect_status_"), ("weight_getter", "weighting_")):
+            v = args.get(pn)
+            ks = [x[2][0][1] for x in walk(v) if x[0] == "call" and x[1][0] == "attr" and x[1][2] == "get" and x[2] and x[2][0][0] == "c"
+                  and isinstance(x[2][0][1], str) and x[2][0][1].startswith(prefix)] if v is not None else []
+            _sh(len(set(ks)) == 1, "%s of %s is looked up in branch_params under one constant key (%s)" % (pn, t, ks))
+            keys[prefix] = ks[0][len(prefix):]
+        run.ob("keyword|%s|one-suffix" % t, len(set(keys.values())) == 1,
+               "include, respect_status and weighting of table %s are looked up under the same suffix: %s" % (t, keys), run.where(f, call.node))
+        sfx = keys["include_"]
+        controls.setdefault(sfx, []).append(t)
+        run.ob("keyword|%s|table-passed" % t, args.get("table_name") == C(t) and args.get("comp") is not None and args["comp"][0] == "loop",
+               "the edges are built from the table of the same component", run.where(f, call.node))
+        d = {"include_comp": C(True), "weight_getter": C(None)}
+        for pn, dv in d.items():
+            v = args[pn]
+            dflt = [x[2][1] for x in walk(v) if x[0] == "call" and x[1][0] == "attr" and x[1][2] == "get" and len(x[2]) == 2]
+            run.ob("keyword|%s|default|%s" % (t, pn), dflt == [dv], "a table without explicit keyword gets the documented default (%s)" % (dv[1],),
+                   run.where(f, call.node))
+    run.ob("branch-tables-found", n_tab >= 10, "branch component tables: %d" % n_tab, w)
+    for x in sorted(named):
+        run.ob("named-parameter-controls-one-table|%s" % x, len(controls.get(x, [])) == 1,
+               "the named parameters *_%s control exactly one branch component table: %s" % (x, controls.get(x, [])), w)
     run.floor(25)
 
 
@@ -96,31 +125,73 @@ def r18_2(run):
     f = ix.func(CG + ".add_branch_component")
     run.analysed(f)
     w = run.where(f, f.node)
-    src = [U(n).replace(" ", "").replace('"', "'") for n in own_walk(f.node) if isinstance(n, ast.Assign)]
-    ok = "from_col,to_col=comp.from_to_node_cols()" in src and "indices[:,F_JUNCTION]=tab[from_col].values" in src \
-        and "indices[:,T_JUNCTION]=tab[to_col].values" in src
-    run.ob("endpoints-from-class", ok, "edge endpoints are the two from_to_node_cols of the component", w)
+    ps = f.params()
+    r = ANF(ix, f, strip=False).run()
+    FJ, TJ = expect(ix, f, "F_JUNCTION"), expect(ix, f, "T_JUNCTION")
+    ends = {}
+    for s_ in r.stores():
+        if len(s_.index) == 2 and s_.index[0] == FULL and s_.index[1] in (FJ, TJ):
+            ends[s_.index[1][1].split(".")[-1]] = s_
+    _sh(set(ends) == {"F_JUNCTION", "T_JUNCTION"}, "both edge endpoints are stored")
+    ftc = ("call", ("attr", ("n", ps[0]), "from_to_node_cols"), (), ())
+    tabs = []
+    for nm, k in (("F_JUNCTION", 0), ("T_JUNCTION", 1)):
+        v = ends[nm].value
+        m = match(("attr", ("idx", ("?", "tab"), (("proj", ftc, k),)), "values"), v)
+        run.ob("endpoints-from-class|%s" % nm, m is not None,
+               "%s of an edge is column from_to_node_cols()[%d] of the component's table" % (nm, k), run.where(f, ends[nm].node), detail=show(v)[:160])
+        if m:
+            tabs.append(m["tab"])
+    run.ob("endpoints-from-same-rows", len(tabs) == 2 and key(tabs[0]) == key(tabs[1]), "both endpoints are read from the same table rows", w)
     from .c17 import polymorphic_columns
     poly = polymorphic_columns(ix)
-    for (tbl, col), (dcol, jval, _) in poly.items():
-        # a row filter on the discriminator must precede the endpoint assignment
-        filt = [n for n in own_walk(f.node) if isinstance(n, ast.Assign) and U(n.targets[0]) == "tab" and
-                "'%s'" % dcol in U(n.value).replace('"', "'") and "== '%s'" % jval in U(n.value).replace('"', "'")]
-        ends = [n for n in own_walk(f.node) if isinstance(n, ast.Assign) and "F_JUNCTION" in U(n.targets[0])]
-        run.ob("polymorphic-endpoint-filtered|%s.%s" % (tbl, col), bool(filt) and bool(ends) and filt[0].lineno < ends[0].lineno,
-               "rows of %s whose %s is not a junction (%s != %r) are not turned into edges" % (tbl, col, dcol, jval), w)
     run.ob("polymorphic-columns-known", ("valve", "element") in poly, "polymorphic columns derived: %s" % sorted(poly), w)
-    # status: in_service column of the component, copied (not aliased)
+    for (tbl, col), (dcol, jval, _) in poly.items():
+        # the rows turned into edges are restricted to discriminator == junction value whenever the column is a from/to column
+        ok = False
+        if tabs:
+            for x in walk(tabs[0]):
+                if x[0] == "ite" and x[2][0] == "idx" and len(x[2][2]) == 1:
+                    sel = x[2][2][0]
+                    if sel[0] == "cmp" and sel[1] == "==" and C(jval) in (sel[2], sel[3]) and contains(sel, C(dcol)) \
+                            and contains(x[1], C(col)) and contains(x[1], ftc):
+                        ok = True
+        run.ob("polymorphic-endpoint-filtered|%s.%s" % (tbl, col), ok,
+               "rows of %s whose %s is not a junction (%s != %r) are not turned into edges" % (tbl, col, dcol, jval), w,
+               detail=show(tabs[0])[:200] if tabs else None)
+    # status: the component's active identifier column, copied
     ip = ix.func(CG + ".init_par")
-    src = U(ip.node)
-    run.ob("status-from-active-identifier", "in_service_name = comp.active_identifier()" in U(f.node) and "tab[in_service_col].values.copy()" in src,
-           "the edge status is the component's active identifier column (copied)", run.where(ip, ip.node))
+    run.analysed(ip)
+    cs = [c for c in r.calls() if c.fn == ("f", ip.qualname)]
+    _sh(len(cs) == 1, "add_branch_component calls init_par once")
+    a_ = dict(zip(ip.params(), cs[0].args))
+    a_.update(dict(cs[0].kw))
+    ok = a_.get(ip.params()[2]) == ("call", ("attr", ("n", ps[0]), "active_identifier"), (), ()) and a_.get(ip.params()[1]) == ("n", "respect_status")
+    run.ob("status-from-active-identifier", ok, "the edge status is the component's active identifier column and respect_status is passed on",
+           run.where(f, cs[0].node))
+    rp = ANF(ix, ip, strip=False, consts={ip.params()[1]: True}).run()
+    good = False
+    for e in rp.returns():
+        v = e.value
+        if v[0] == "tuple" and len(v[1]) == 3:
+            st = v[1][2]
+            good = good or key(st) == key(expect(ix, ip, "%s[%s].values.copy()" % (ip.params()[0], ip.params()[2]), strip=False))
+    run.ob("status-is-a-copy", good, "the status array is a copy of the table column (it is modified for closed valves)", run.where(ip, ip.node))
+    rn = ANF(ix, ip, strip=False, consts={ip.params()[1]: False}).run()
+    ok = any(e.value[0] == "tuple" and len(e.value[1]) == 3 and e.value[1][2][0] == "call" and e.value[1][2][1] == ("x", "numpy.ones")
+             for e in rn.returns())
+    run.ob("status-ignored-when-not-respected", ok, "without respect_status every row is an edge", run.where(ip, ip.node))
     g = ix.func(CG + ".create_nxgraph")
-    src = U(g.node)
-    run.ob("out-of-service-junctions-removed", "net.junction.index[~net.junction.in_service.values]" in src and "mg.remove_node(b)" in src,
-           "out-of-service junctions are removed under respect_status_junctions", run.where(g, g.node))
-    run.ob("isolated-junctions-added", "set(net.junction.index) - set(mg.nodes())" in src, "junctions without edges are graph nodes as well", run.where(g, g.node))
-    run.floor(6)
+    rg = ANF(ix, g).run()
+    rm = [c for c in rg.calls() if c.fn[0] == "attr" and c.fn[2] == "remove_node" and c.loops]
+    oos = expect(ix, g, "net.junction.index[~net.junction.in_service.values]")
+    ok = any(key(rg.loops[c.loops[-1]]["iter"]) == key(oos) and c.args == (("loop", c.loops[-1], 0),)
+             and any(key(cc) == key(("n", "respect_status_junctions")) and p for cc, p in c.cond) for c in rm)
+    run.ob("out-of-service-junctions-removed", ok, "out-of-service junctions are removed under respect_status_junctions", run.where(g, g.node))
+    ad = [c for c in rg.calls() if c.fn[0] == "attr" and c.fn[2] == "add_node" and c.loops]
+    ok = any(contains(rg.loops[c.loops[-1]]["iter"], expect(ix, g, "set(net.junction.index)")) and c.args == (("loop", c.loops[-1], 0),) for c in ad)
+    run.ob("isolated-junctions-added", ok, "junctions without edges are graph nodes as well", run.where(g, g.node))
+    run.floor(8)
 
 
 def solver_pressure_sources(ix):
@@ -150,46 +221,140 @@ def r18_3(run):
     f = ix.func(GS + ".unsupplied_junctions")
     run.analysed(f)
     w = run.where(f, f.node)
-    src = U(f.node).replace('"', "'")
+    ps = f.params()
+    r = ANF(ix, f, consts={ps[2]: None}, param_alias={ps[0]: "net", ps[1]: "mg"}).run()
+    # slack set: union of |= contributions; each contribution is set(<table filtered by in_service>.<col>.values[...])
+    rets = r.returns()
+    _sh(len(rets) == 1, "unsupplied_junctions has one return")
+    # collect every set(...) contribution to the slack set from the final condition of the component loop
+    contribs = []
+    for c in r.calls():
+        if c.fn == ("x", "builtins.set") and c.args and any(contains(c.args[0], ("n", "net")) for _ in (0,)):
+            contribs.append(c)
+    found = {}
+    for c in contribs:
+        a0 = c.args[0]
+        # table name: net[<T>] with T constant or an unrolled loop constant
+        tnames = {x[2][0][1] for x in walk(a0) if x[0] == "idx" and x[1] == ("n", "net") and len(x[2]) == 1 and x[2][0][0] == "c"}
+        cols = {x[2] for x in walk(a0) if x[0] == "attr" and x[1][0] == "idx" and x[2] not in ("values", "in_service", "type")} | \
+               {x[2][0][1] for x in walk(a0) if x[0] == "idx" and len(x[2]) == 1 and x[2][0][0] == "c" and x[1][0] == "idx" and x[1][1] != ("n", "net")}
+        insvc = any(x[0] in ("attr", "idx") and (x[2] == "in_service" or x[2] == (C("in_service"),)) for x in walk(a0))
+        for t in tnames:
+            found[t] = (cols, insvc, a0)
     for tbl, col in sorted(srcs.items()):
-        ok = ("'%s'" % tbl in src or "net.%s" % tbl in src) and (".%s.values" % col in src or "['%s']" % col in src)
-        run.ob("slack-table|%s" % tbl, ok, "unsupplied_junctions uses the %s column of in-service %s rows as supply" % (col, tbl), w)
-    run.ob("slack-filter|in_service", src.count("in_service") >= 2, "only in-service elements supply", w)
-    run.ob("slack-filter|pressure-type", "'p' in str(tp)" in src or "'p' in" in src,
+        got = found.get(tbl)
+        run.ob("slack-table|%s" % tbl, got is not None and col in got[0],
+               "unsupplied_junctions uses column %s of %s as supplied junctions" % (col, tbl), w,
+               detail=show(got[2])[:200] if got else "tables used: %s" % sorted(found))
+        run.ob("slack-filter|in_service|%s" % tbl, got is not None and got[1], "only in-service %s rows supply" % tbl, w)
+    for tbl in sorted(found):
+        run.ob("slack-table-is-pressure-source|%s" % tbl, tbl in srcs, "%s fixes a pressure on the solver side" % tbl, w)
+    eg = found.get("ext_grid")
+    ptype = False
+    if eg:
+        for x in walk(eg[2]):
+            if x[0] == "comp" and any(y[0] == "cmp" and y[1] == "in" and y[2] == C("p") for y in walk(x[2])):
+                ptype = True
+            if x[0] == "call" and x[1] == ("x", "numpy.isin") and len(x[2]) >= 2 and x[2][1][0] in ("list", "tuple") \
+                    and {i[1] for i in x[2][1][1]} == {"p", "pt"}:
+                ptype = True
+    run.ob("slack-filter|pressure-type", ptype,
            "external grids supply pressure only if their type contains 'p' (the solver's valid_types filter)", w)
-    # the solver's type filter
     sf = ix.func("pandapipes.component_models.component_toolbox.set_fixed_node_entries")
-    ok = "['p', 'pt']" in U(sf.node)
+    rs = ANF(ix, sf, consts={sf.params()[-1]: "p"} if sf.params()[-1] not in ("net",) else None).run()
+    ok = any(x[0] in ("list", "tuple") and {i[1] for i in x[1] if i[0] == "c"} == {"p", "pt"} for e in rs.events
+             for x in walk(getattr(e, "term", getattr(e, "value", ())) or ()))
     run.ob("solver-type-filter", ok, "the solver fixes pressures only for types p / pt", run.where(sf, sf.node))
-    run.ob("components-without-slack", "nx.connected_components(mg)" in src and "if not set(cc) & slacks" in src,
-           "a connected component without a slack junction is unsupplied", w)
+    # components without a slack are unsupplied
+    lp = [l for l in r.loops.values() if l["iter"][0] == "call" and l["iter"][1][0] == "x" and l["iter"][1][1].endswith("connected_components")]
+    ok = len(lp) == 1 and lp[0]["iter"][2] and contains(lp[0]["iter"][2][0], ("n", "mg"))
+    upd = [c for c in r.calls() if c.fn[0] == "attr" and c.fn[2] == "update" and c.loops]
+    ok = ok and len(upd) == 1 and len(upd[0].cond) >= 1
+    if ok:
+        cnd, pol = norm_cond(*upd[0].cond[-1])
+        lv = ("loop", upd[0].loops[-1], 0)
+        ok = (not pol) and cnd[0] == "opn" and cnd[1] == "&" and any(contains(x, lv) for x in cnd[2]) and contains(upd[0].args[0], lv)
+    run.ob("components-without-slack", ok,
+           "exactly the connected components of the graph that contain no slack junction are reported", w)
     run.floor(7)
 
 
 def r18_5(run):
     ix = run.index
     f = ix.func(CG + ".create_nxgraph")
-    d = {p.arg: dv for p, dv in zip(reversed(f.node.args.args), reversed(f.node.args.defaults))}
-    run.ob("pipe-weight-default", U(d.get("weighting_pipes")).replace('"', "'") == "(get_col_value, ('length_km',))",
-           "pipes are weighted with length_km by default", run.where(f, f.node))
     gcv = ix.func(CG + ".get_col_value")
-    run.ob("get_col_value", "branch_table[column_name].to_numpy()" in U(gcv.node), "the weight is the column's value", run.where(gcv, gcv.node))
-    src = U(f.node).replace('"', "'")
-    run.ob("valve-filter-only-for-pipes", "switch_components = {'pipes': 'pi'}" in src and
-           "valve_et_filter = switch_components.get(include_kw) if respect_status_valves else None" in src,
-           "closed pipe valves are considered for the pipe edges only under respect_status_valves", run.where(f, f.node))
+    d = {p.arg: dv for p, dv in zip(reversed(f.node.args.args), reversed(f.node.args.defaults))}
+    dflt = d.get("weighting_pipes")
+    ok = isinstance(dflt, ast.Tuple) and len(dflt.elts) == 2 and isinstance(dflt.elts[0], ast.Name) and \
+        ix.resolve(f.module, dflt.elts[0].id) == ("func", gcv) and isinstance(dflt.elts[1], ast.Tuple) and \
+        [const_str(e) for e in dflt.elts[1].elts] == ["length_km"]
+    run.ob("pipe-weight-default", ok, "pipes are weighted with length_km by default", run.where(f, f.node))
+    rg = ANF(ix, gcv).run()
+    ps = gcv.params()
+    ok = len(rg.returns()) == 1 and key(strip_values(rg.returns()[0].value)) == key(("idx", ("n", ps[1]), (("n", ps[2]),)))
+    run.ob("get_col_value", ok, "the weight is the column's value", run.where(gcv, gcv.node))
+    # closed pipe valves: only for the pipe table, only under respect_status_valves
+    from .c17 import polymorphic_columns
+    poly = polymorphic_columns(ix)
+    dcol, jval, tbls = poly.get(("valve", "element"), ("et", "ju", {}))
+    pval = ([v for v, t in tbls.items() if t == "pipe"] or ["pi"])[0]
+    seen = {}
+    for c in ix.components():
+        if not ix.is_subclass(c, "BranchComponent"):
+            continue
+        t = ix.method_const(c, "table_name")
+        r = ANF(ix, f, method_consts={"table_name": t}).run()
+        abc, call, args = _abc_call(ix, r)
+        seen[t] = args.get("valve_et_filter")
+    want_pipe = ("ite", ("n", "respect_status_valves"), C(pval), C(None))
+    run.ob("valve-filter|pipe", seen.get("pipe") == want_pipe,
+           "closed valves attached to pipes (et == %r) are considered for the pipe edges under respect_status_valves" % pval,
+           run.where(f, f.node), detail=show(seen.get("pipe"))[:120] if seen.get("pipe") else None)
+    others = {t: v for t, v in seen.items() if t != "pipe" and not (v == C(None) or v == ("ite", ("n", "respect_status_valves"), C(None), C(None)))}
+    run.ob("valve-filter|only-pipes", not others, "no other table is affected by pipe valves", run.where(f, f.node), detail=str(sorted(others)))
     a = ix.func(CG + ".add_branch_component")
-    s = U(a.node).replace(" ", "")
-    ok = "mask=(net.valve.et.values==valve_et_filter)&~net.valve.opened.values.astype(bool)" in s and \
-        "open_pipes_mask=np.isin(indices[:,INDEX],open_pipes)" in s and "in_service&=~open_pipes_mask" in s
-    run.ob("closed-pipe-valve-removes-pipe-edge", ok, "a closed valve attached to a pipe takes that pipe's edge out of service", run.where(a, a.node))
-    ok = "parameter[:,WEIGHT]=weight_getter[0](net,tab,*weight_getter[1])" in s
-    run.ob("weight-written", ok, "the weight getter fills the edge weight", run.where(a, a.node))
+    ps = a.params()
+    r = ANF(ix, a).run()
+    abcargs = [c for c in r.calls() if c.fn[0] in ("f", "x") and c.fn[1].endswith("add_edges")]
+    _sh(len(abcargs) == 1 and len(abcargs[0].args) >= 4, "add_branch_component hands indices, parameter, in_service to add_edges")
+    ins = abcargs[0].args[3]
+    # expected: status & ~isin(indices[:, INDEX], <element of closed valves of the filtered type>)  under valve_et_filter is not None and mask.any()
+    mask = expect(ix, a, "(net.valve.%s.values == valve_et_filter) & ~net.valve.opened.values" % dcol)
+    closed = expect(ix, a, "net.valve.element.values[M]", env={"M": mask})
+    ok = False
+    for x in walk(ins):
+        if x[0] == "opn" and x[1] == "&":
+            for y in x[2]:
+                if y[0] == "u" and y[1] == "~" and y[2][0] == "call" and y[2][1] == ("x", "numpy.isin") and len(y[2][2]) == 2 \
+                        and key(y[2][2][1]) == key(closed):
+                    col = y[2][2][0]
+                    ok = col[0] == "idx" and len(col[2]) == 2 and col[2][1] == expect(ix, a, "INDEX") and col[2][0] == FULL
+    run.ob("closed-pipe-valve-removes-pipe-edge", ok,
+           "a closed valve attached to a pipe takes the edge of the pipe whose *index label* equals valve.element out of service",
+           run.where(a, a.node), detail=show(ins)[:300])
+    # the INDEX column holds the table's index labels
+    ip = ix.func(CG + ".init_par")
+    rp = ANF(ix, ip).run()
+    ok = any(len(s_.index) == 2 and s_.index[1] == expect(ix, ip, "INDEX") and key(s_.value) == key(expect(ix, ip, "%s.index" % ip.params()[0]))
+             for s_ in rp.stores())
+    run.ob("index-column-holds-labels", ok, "indices[:, INDEX] holds the index labels of the table", run.where(ip, ip.node))
+    wst = [s_ for s_ in r.stores() if len(s_.index) == 2 and s_.index[1] == expect(ix, a, "WEIGHT")]
+    ok = len(wst) == 1 and wst[0].value[0] == "call" and wst[0].value[1] == ("idx", ("n", "weight_getter"), (C(0),)) \
+        and wst[0].value[2][:1] == (("n", ps[2]),) and any(contains(c, ("n", "weight_getter")) and contains(c, C(None)) for c, p in wst[0].cond)
+    run.ob("weight-written", ok, "the weight getter fills the edge weight", run.where(a, a.node), detail=show(wst[0].value)[:160] if wst else None)
     for q in ("calc_distance_to_junction", "calc_distance_to_junctions"):
         g = ix.func(GS + "." + q)
-        run.ob("%s|dijkstra-on-weight" % q, "dijkstra_path_length" in U(g.node) and "weight=weight" in U(g.node),
-               "%s returns shortest-path sums of the edge weights" % q, run.where(g, g.node))
+        rq = ANF(ix, g).run()
+        ok = any(c.fn[0] == "x" and c.fn[1].endswith("dijkstra_path_length") and dict(c.kw).get("weight") == ("n", "weight") for c in rq.calls())
+        run.ob("%s|dijkstra-on-weight" % q, ok, "%s returns shortest-path sums of the edge weights" % q, run.where(g, g.node))
     run.floor(7)
+
+
+def strip_values(t):
+    while isinstance(t, tuple) and t and ((t[0] == "attr" and t[2] == "values") or
+                                          (t[0] == "call" and t[1][0] == "attr" and t[1][2] in ("to_numpy",) and not t[2])):
+        t = t[1] if t[0] == "attr" else t[1][1]
+    return t
 
 
 RULES = [("R18.1", r18_1), ("R18.2", r18_2), ("R18.3", r18_3), ("R18.5", r18_5)]
